@@ -2198,6 +2198,7 @@ func main() {
 	r.Floor("get_answers_all_ok", int(r.Counter("get_answers_all_ok")), 20)
 	r.Floor("put_same_value_writes", int(r.Counter("put_same_value_writes")), 20)
 	r.Guard("freshness", func() { freshness(r) })
+	r.Guard("nested updates", func() { nestedUpdates(r) })
 	r.Guard("getters", func() { getters(r) })
 	r.Floor("callbacks_checked", int(r.Counter("callbacks_checked")), 300)
 	r.Floor("put_entries_for_non_existing_ids", int(r.Counter("put_entries_for_non_existing_ids")), 3)
